@@ -28,7 +28,9 @@ _MAP = {
     'L2_cycle_shift_reject': lambda a: S.check_nla_shift_reject(pysam_mk, a['X'], a['rev'], a['tail']),
     'L3_chic_site_mirror': lambda a: S.check_chic(pysam_mk, a['P'], a['c'], a['rev'], a['trimmed'], a['inv'], a['Lam']),
     'L3_chic_orientation': lambda a: S.check_chic_orientation(pysam_mk, a['P'], a['rev'], a['r2rev'], a['r2unmapped']),
-    'L5_no_overhang': lambda a: S.check_nla_no_overhang(pysam_mk, real_ref, a['S'], a['rev'], a['window']),
+    'L5b_no_overhang_softmasked': lambda a: S.check_nla_no_overhang(pysam_mk, real_ref, a['S'], a['rev'], 'A' * a['j'] + ''.join((ch.lower() if (a['mask'] >> i) & 1 else ch) for i, ch in enumerate('CATG')) + 'A' * (3 - a['j'])),
+    # real str.upper runs here; a window with lower-case letters is judged by the case-insensitive oracle
+    'L5_no_overhang': lambda a: S.check_nla_no_overhang(pysam_mk, real_ref, a['S'], a['rev'], a['window'], case_free=(a['window'].upper() == a['window'])),
     'L4_nla_mirror': lambda a: S.check_nla_mirror(pysam_mk, a['X'], a['c'], a['rev'], a['Lam']),
 }
 
